@@ -19,6 +19,7 @@ OTFAD = "spsdk/utils/crypto/otfad.py"
 IEE = "spsdk/utils/crypto/iee.py"
 BEE = "spsdk/image/bee.py"
 CRC = "spsdk/crypto/crc.py"
+SB21 = "spsdk/sbfile/sb2/sb_21_helper.py"
 MISSING = 999999
 
 
@@ -129,7 +130,7 @@ def crc_config(tree, member):
 
 def gen_FlashEncConsts():
     otfad, iee, bee, crc = (parse(p) for p in (OTFAD, IEE, BEE, CRC))
-    meta = {"sources": [OTFAD, IEE, BEE, CRC], "missing": []}
+    meta = {"sources": [OTFAD, IEE, BEE, CRC, SB21], "missing": []}
     L = ["namespace SpsdkVerif.Generated.FlashEncConsts", ""]
 
     def d(name, val, comment):
@@ -196,6 +197,23 @@ def gen_FlashEncConsts():
     sh = shift_amounts(_fun(_cls(bee, "BeeProtectRegionBlock"), "encrypt_block"))
     d("beeCtrAddrShift", sh[0] if sh else None, "BeeProtectRegionBlock.encrypt_block: ctr_value = start_addr >> N")
     d("beeFacRegions", class_consts(bee, "BeeProtectRegionBlock").get("FAC_REGIONS"), "BeeProtectRegionBlock.FAC_REGIONS")
+
+    prdb = class_consts(bee, "BeeProtectRegionBlock")
+    for lean, py in (("beeTagL", "TAGL"), ("beeTagH", "TAGH"), ("beeVersion", "VERSION"), ("beePrdbSize", "SIZE")):
+        d(lean, prdb.get(py), f"BeeProtectRegionBlock.{py}")
+    rh = class_consts(bee, "BeeRegionHeader")
+    d("beeHdrPrdbOffset", rh.get("PRDB_OFFSET"), "BeeRegionHeader.PRDB_OFFSET")
+    d("beeHdrSize", rh.get("SIZE"), "BeeRegionHeader.SIZE")
+    d("beeModeCtr", enum_tags(bee, "BeeProtectRegionBlockAesMode").get("CTR"), "BeeProtectRegionBlockAesMode.CTR")
+
+    # ---------------- SB2.1 helper: `encrypt` command
+    try:
+        sb21 = parse(SB21)
+        al = int_literals(_fun(_cls(sb21, "SB21Helper"), "_encrypt"),
+                          lambda p, c: isinstance(p, ast.Call) and getattr(p.func, "id", "") == "align_block" and len(p.args) > 1 and p.args[1] is c)
+    except (OSError, SyntaxError):
+        al = []
+    d("sb21EncryptAlign", al[0] if al else None, "SB21Helper._encrypt: align_block(data, N)")
 
     # ---------------- CRC-32/MPEG-2 as configured in CRC_ALGORITHMS (crcmod semantics: register init = initCrc xor xorOut)
     cc = crc_config(crc, "CRC32_MPEG")
